@@ -474,6 +474,14 @@ func zooMakers() []zooMaker {
 		}
 		return b
 	}))
+	// the same size with the term in EVERY document: its bitmap has a completely full container
+	out = append(out, zooBuilt("huge-66000-dense", true, func() []model.Doc {
+		b := gen.Large(66000, 0, 1)
+		for _, j := range []int{0, 1, 65535, 65536, 65999} {
+			b[j] = append(gen.Doc{gen.IDField("h", j)}, b[j]...)
+		}
+		return b
+	}))
 	return out
 }
 
